@@ -23,6 +23,7 @@ pub struct World {
     pub closed: Set<int>,              // mailbox queues whose receiver is gone (shared: a closed queue stays closed)
     pub aborted: Set<int>,             // timer tasks whose abort handle has been used
     pub bg: Seq<int>,                  // background futures (timer tasks) spawned by this task, in order
+    pub cfg_timeout: Option<u64>,      // the handler timeout this actor task was configured with (C11)
     pub last_pid: int,                 // ghost registers: the payload / oneshot slot most recently created by this task
     pub last_slot: int,
 }
@@ -115,3 +116,13 @@ pub type DynResult<T> = Result<T, DynErr>;
 // std::time::Duration as a ghost-comparable number (rule T2)
 pub fn duration_from_secs(s: u64) -> (r: u64) ensures r == s { s }
 pub fn duration_from_millis(ms: u64) -> (r: u64) ensures r == ms { ms }
+
+// std::time::Duration as a ghost-comparable number (rule T2): conversions to coarser units are not modelled (their results are unconstrained)
+pub trait DurationOps { fn as_millis(&self) -> (r: u128); fn as_micros(&self) -> (r: u128); fn as_nanos(&self) -> (r: u128); fn as_secs(&self) -> (r: u64); fn is_zero(&self) -> (r: bool); }
+impl DurationOps for u64 {
+    #[verifier::external_body] fn as_millis(&self) -> (r: u128) { unimplemented!() }
+    #[verifier::external_body] fn as_micros(&self) -> (r: u128) { unimplemented!() }
+    #[verifier::external_body] fn as_nanos(&self) -> (r: u128) { unimplemented!() }
+    #[verifier::external_body] fn as_secs(&self) -> (r: u64) { unimplemented!() }
+    #[verifier::external_body] fn is_zero(&self) -> (r: bool) { unimplemented!() }
+}
